@@ -19,8 +19,8 @@ def split_functions(text):
                     name = line[3:m.start()]
             elif line.startswith('const ') and 'promoted[' in line and line.endswith('{'):
                 name = line[len('const '):].split(']: ')[0] + ']'
-            elif line.startswith('static ') and line.endswith('{'):
-                name = None
+            elif line.startswith('const ') and line.endswith('= {'):
+                name = 'const-item ' + line[len('const '):].split(': ')[0]
             if name is not None:
                 cur = name
                 buf = [line]
@@ -252,7 +252,18 @@ class Index:
         self.traitimpl = {}    # (Trait, TypeNorm, method) -> fn name
         self.free = {}         # name (last segment and full) -> fn name
         self.impl_info = {}    # fn name -> (trait or None, self type)
+        self.aliases = {}
+        for dp, _, fs in os.walk(crate_src_root):
+            for f in fs:
+                if f.endswith('.rs'):
+                    for mm in re.finditer(r'^\s*(?:pub(?:\([a-z]+\))?\s+)?type\s+(\w+)\s*=\s*(\w+)\s*;', open(os.path.join(dp, f)).read(), re.M):
+                        self.aliases[mm.group(1)] = mm.group(2)
+        self.closures = {}     # closure span text -> fn name
         for name in self.fns_raw:
+            if '{closure#' in name and 'promoted[' not in name:
+                mm = re.search(r'\(_1: &?(?:mut )?\{closure@([^}]*)\}', self.fns_raw[name][0])
+                if mm:
+                    self.closures[mm.group(1)] = name
             if 'promoted[' in name or '{closure' in name or '{constant' in name:
                 continue
             m = re.match(r'^(.*?)<impl at ([^>]*?):(\d+):(\d+): (\d+):(\d+)>::(\w+)$', name)
@@ -261,6 +272,7 @@ class Index:
                 tr, ty = self._impl_header(path, l1, c1, l2, c2)
                 if ty is None:
                     continue
+                ty = re.sub(r'\b(\w+)\b', lambda mm: self.aliases.get(mm.group(1), mm.group(1)), ty)
                 self.impl_info[name] = (tr, ty)
                 if tr is None:
                     self.inherent[(norm_type(ty).split('<')[0], meth)] = name
@@ -327,6 +339,7 @@ class Layouts:
         text = re.sub(r'//[^\n]*', '', text)
         for m in re.finditer(r'\benum\s+(\w+)\s*(<[^>{]*>)?\s*\{', text):
             body, _ = self._balanced(text, m.end() - 1)
+            body = body.replace('<<', ' SHL ')
             variants = []
             nxt = 0
             for item in split_top(body[1:-1]):
@@ -346,7 +359,7 @@ class Layouts:
                             fields.append(re.sub(r'^pub(\([a-z]+\))?\s+', '', fld).split(':')[0].strip())
                 if mm.group(4):
                     try:
-                        nxt = eval(mm.group(4).strip(), {'__builtins__': {}})
+                        nxt = eval(mm.group(4).strip().replace(' SHL ', '<<'), {'__builtins__': {}})
                     except Exception:
                         pass
                 variants.append((vname, nxt, fields))
